@@ -17,6 +17,7 @@ the rules see:
   S3  nested ifs          `if a: (if b: S)`              ->  `if a and b: S`
   S4  tail guard          last statement of a loop / function body `if c: S`
                                                          ->  `if not c: continue/return` ; S
+  S4b tail if/else        last statement `if a: A else: B`  ->  `if a: A ; continue/return` ; B
   S5  guard splitting     `if a or b: J` (J jumps)       ->  `if a: J` ; `if b: J`
   S6  conditional value   `if c: x = a else: x = b` -> `x = a if c else b` ; `return a if c else b` -> guard + return
                           `x = a` ; `if c(x): x = b(x)`  ->  `x1 = a` ; `if c(x1): x = b(x1) else: x = x1`
@@ -629,6 +630,7 @@ class Canon:
             self.fn = fn
             is_gen = any(isinstance(n, (ast.Yield, ast.YieldFrom)) for n in _own_nodes(fn))
             self.is_gen = is_gen
+            self.fn_returns_value = any(isinstance(n, ast.Return) and n.value is not None for n in _own_nodes(fn))
             fn.body = self.block(fn.body, "func")
             fn.body = self.lets(fn, fn.body)
             ast.fix_missing_locations(fn)
@@ -753,6 +755,16 @@ class Canon:
                 for v in s.test.values:
                     news.append(_loc(ast.If(test=v, body=copy.deepcopy(s.body), orelse=[]), v))
                 return news, 0
+            # S4b tail if/else: `if a: A else: B` at the end of a loop / function body
+            #     ->  `if a: A ; continue` ; B
+            if s.orelse and is_last and ctx in ("loop", "func") and not jumps(s.body) and not jumps(s.orelse) and not (
+                ctx == "func" and self.fn_returns_value
+            ):
+                j2: ast.stmt = ast.Continue() if ctx == "loop" else ast.Return(value=None)
+                s.body = s.body + [_loc(j2, s)]
+                tail2 = s.orelse
+                s.orelse = []
+                return [s] + tail2, 0
             # S4 tail guard
             if not s.orelse and is_last and ctx in ("loop", "func") and not jumps(s.body):
                 if ctx == "loop":
